@@ -328,7 +328,7 @@ class Body:
                 return ('const', bytes(c['bytes']), c)
             if 'def' in c and 'promoted' in c:
                 pb = self.crate.by_path.get('%s::{promoted#%d}' % (c['def'], c['promoted']))
-                if pb and depth < 30:
+                if pb and depth < 110:
                     rets = [pb[0]._origin_def(d, depth + 1, {0}) for d in pb[0].defs().get(0, [])]
                     if len(rets) == 1:
                         return rets[0]
